@@ -224,6 +224,7 @@ def build_manager(w):
                           body_read_size=scn.get('body_read_size'),
                           stream_pattern=scn.get('stream_pattern', 'full'),
                           http=scn.get('endpoint') == 'http')
+    w.client.send_think = scn.get('send_think', 0)
     w.source_client = w.client
     fs_sites = [s for s in faults.get('sites', ()) if s.startswith('fs:')]
     special = []
